@@ -22,7 +22,7 @@ cd /verif
 rm -rf $W/_build
 log "running (VERIF_REPO=$W): $*"
 VERIF_REPO=$W "$@" > /tmp/seedcheck.out.$$ 2>&1; rcc=$?
-grep -E "VIOLATION|ENCODING-ERROR|^ERROR| fail | error |inconclusive|KNOWN" /tmp/seedcheck.out.$$ | head -12
+grep -E "VIOLATION" /tmp/seedcheck.out.$$ | head -8; grep -E "ENCODING-ERROR|^ERROR| fail | error |inconclusive|KNOWN" /tmp/seedcheck.out.$$ | head -8
 log "check exit code $rcc (1 = caught)"
 rm -f /tmp/seedcheck.out.$$
 exit $rcc
